@@ -8,11 +8,13 @@ import shutil
 
 _ROOT = None
 _PID = None
+_CACHE = None  # tree computed since the last invalidate() (nothing touched the sandbox in between)
 
 
 def root() -> str:
-    global _ROOT, _PID
+    global _ROOT, _PID, _CACHE
     if _ROOT is None or _PID != os.getpid():
+        _CACHE = None
         base = "/dev/shm" if os.path.isdir("/dev/shm") and os.access("/dev/shm", os.W_OK) else "/tmp"
         _ROOT = os.path.join(base, f"xmc-{os.getpid()}")
         _PID = os.getpid()
@@ -39,8 +41,21 @@ def cleanup_now():
         _ROOT = None
 
 
+def invalidate() -> None:
+    global _CACHE
+    _CACHE = None
+
+
 def tree() -> tuple:
     """Canonical content of the sandbox: sorted tuple of (relpath, 'd'|'f', bytes|None)."""
+    global _CACHE
+    if _CACHE is not None:
+        return _CACHE
+    _CACHE = _tree()
+    return _CACHE
+
+
+def _tree() -> tuple:
     r = root()
     out = []
     for dirpath, dirnames, filenames in os.walk(r):
@@ -57,10 +72,12 @@ def tree() -> tuple:
 
 
 def restore(target: tuple) -> None:
+    global _CACHE
     r = root()
     cur = tree()
     if cur == target:
         return
+    _CACHE = None
     want = {p: (k, c) for p, k, c in target}
     have = {p: (k, c) for p, k, c in cur}
     # remove what should not be there / differs in kind (deepest first)
@@ -82,3 +99,4 @@ def restore(target: tuple) -> None:
             with open(full, "wb") as fh:
                 fh.write(c)
     os.chdir(r)
+    _CACHE = target
